@@ -1,9 +1,9 @@
 #!/bin/bash
-# development aid: confirm and test a round of seeded changes.  usage: round.sh <suffix> Cxx[:feature-flags] ...
+# development aid: confirm and test a round of seeded changes.  usage: round.sh <suffix> Cxx[:cargo-feature] ...   (e.g. C04:cranelift)
 # for every /tmp/mut/Cxx<suffix>: confirm_seed.sh (suite green, demo fails with / passes without), then mtest.sh Cxx; prints a summary
 S="$1"; shift
 run_one() {
-  spec="$1"; p="${spec%%:*}"; feat=""; [ "$spec" != "$p" ] && feat="${spec#*:}"
+  spec="$1"; p="${spec%%:*}"; feat=""; [ "$spec" != "$p" ] && feat="--features ${spec#*:}"
   W=/tmp/mut/${p}${S}
   sh /verif/checklib/confirm_seed.sh "$W" "$p" "$feat" > "$W.confirm" 2>&1
   /verif/checklib/mtest.sh "$W" "$p" > "$W.mtest" 2>&1
